@@ -3217,3 +3217,146 @@ def rule_parser_keeps_tabs(ctx, rep: Report, rid="L8"):
                 f"gives the default `g(1,   2)` or `g(1,       2)` depending on how far the line is indented - a change of layout between other tokens "
                 f"changes the parse result and the generated code", f"{mod_ci.mod.rel}:{c.lineno}")
     rep.units["verbatim_copy_sites"] = len(verb)
+
+
+# ------------------------------------------------------------------------------------------ Z9 recursion cycles walk a child once per level
+_Z9_POSITIVE = '''
+class Node:
+    def __init__(self, kids):
+        self.kids = [k.copy() for k in kids]
+    def copy(self):
+        return Node([k.copy() for k in self.kids])
+'''
+_Z9_NEGATIVE = '''
+class Node:
+    def __init__(self, kids):
+        self.kids = list(kids)
+    def copy(self):
+        return Node([k.copy() for k in self.kids])
+'''
+
+
+def _cycle_fanout(classes: Dict[str, ast.ClassDef]) -> List[Tuple[str, str, List[int]]]:
+    """[(function, child source, lines)]: functions of the given classes that lie on a recursion cycle - through method calls,
+    property reads and constructor calls - and enter the cycle two or more times for the same children in one activation."""
+    fns: Dict[str, ast.FunctionDef] = {}
+    by_name: Dict[str, List[str]] = {}
+    props: Dict[str, List[str]] = {}
+    for cq, cnode in classes.items():
+        for st in cnode.body:
+            if isinstance(st, (ast.FunctionDef, ast.AsyncFunctionDef)):
+                q = f"{cq}.{st.name}"
+                fns[q] = st
+                by_name.setdefault(st.name, []).append(q)
+                if any(unparse(d) in ("property", "functools.cached_property", "cached_property") for d in st.decorator_list):
+                    if not any("cached" in unparse(d) for d in st.decorator_list):
+                        props.setdefault(st.name, []).append(q)
+    short = {cq.split(".")[-1]: cq for cq in classes}
+
+    def sites(fn):
+        """(node, targets, receiver-or-args)"""
+        out = []
+        for x in walk_no_nested(fn):
+            if enclosing(x, ast.Raise) is not None:
+                continue
+            if isinstance(x, ast.Call) and isinstance(x.func, ast.Attribute) and x.func.attr in by_name:
+                out.append((x, by_name[x.func.attr], [x.func.value]))
+            elif isinstance(x, ast.Call) and isinstance(x.func, ast.Name) and x.func.id in short and f"{short[x.func.id]}.__init__" in fns:
+                out.append((x, [f"{short[x.func.id]}.__init__"], list(x.args) + [k.value for k in x.keywords]))
+            elif isinstance(x, ast.Attribute) and isinstance(x.ctx, ast.Load) and x.attr in props and not (isinstance(parent(x), ast.Call) and parent(x).func is x):
+                out.append((x, props[x.attr], [x.value]))
+        return out
+    graph = {q: {t for _, ts, _ in sites(fn) for t in ts} for q, fn in fns.items()}
+
+    def reaches(a, b) -> bool:
+        seen, todo = set(), [a]
+        while todo:
+            v = todo.pop()
+            for w in graph.get(v, ()):
+                if w == b:
+                    return True
+                if w not in seen:
+                    seen.add(w)
+                    todo.append(w)
+        return False
+    found = []
+    for q, fn in sorted(fns.items()):
+        if not reaches(q, q):
+            continue
+
+        def key_of(e, node):
+            # an iteration variable names its collection; a comprehension names what it ranges over; a local bound to one of these likewise
+            if isinstance(e, (ast.ListComp, ast.GeneratorExp, ast.SetComp)):
+                return "each of " + unparse(e.generators[0].iter)
+            if isinstance(e, ast.Call) and isinstance(e.func, ast.Name) and e.func.id in ("list", "tuple", "sorted") and e.args:
+                return key_of(e.args[0], node)
+            if isinstance(e, ast.Name):
+                p = node
+                while p is not None and p is not fn:
+                    if isinstance(p, (ast.ListComp, ast.GeneratorExp, ast.SetComp, ast.DictComp)):
+                        for g in p.generators:
+                            if any(isinstance(x, ast.Name) and x.id == e.id for x in ast.walk(g.target)):
+                                return "each of " + unparse(g.iter)
+                    if isinstance(p, ast.For) and any(isinstance(x, ast.Name) and x.id == e.id for x in ast.walk(p.target)):
+                        return "each of " + unparse(p.iter)
+                    p = parent(p)
+                for st in walk_no_nested(fn):
+                    if isinstance(st, ast.Assign) and len(st.targets) == 1 and isinstance(st.targets[0], ast.Name) and st.targets[0].id == e.id \
+                            and isinstance(st.value, (ast.ListComp, ast.GeneratorExp)):
+                        return "each of " + unparse(st.value.generators[0].iter)
+            return unparse(e)
+        groups: Dict[str, List[ast.AST]] = {}
+        for node, targets, exprs in sites(fn):
+            if not any(t == q or reaches(t, q) for t in targets):
+                continue
+            for e in exprs:
+                k = key_of(e, node)
+                if k in ("self",) or isinstance(e, ast.Constant):
+                    continue
+                lst = groups.setdefault(k, [])
+                if not any(n_ is node for n_ in lst):
+                    # a site nested inside another site of the same group is part of that one's argument (Node([k.copy() for k in ..]))
+                    lst.append(node)
+        for k, nodes in sorted(groups.items()):
+            keep: List[ast.AST] = []
+            for n_ in nodes:
+                if all(not _exclusive(n_, m_) for m_ in keep):
+                    keep.append(n_)
+            if len(keep) >= 2:
+                found.append((q, k, sorted({n_.lineno for n_ in keep})))
+    return found
+
+
+def rule_recursion_cycles_once_per_child(ctx, rep: Report, rid="Z9", package="gtwrap/interface_parser"):
+    """What a parse action does with a nested construct stays linear in the nesting depth: wherever methods, properties and
+    constructors of the parser's node classes call each other in a cycle (a `copy()` that builds a node whose constructor copies
+    again; a property `declarations` that asks each nested namespace `is_empty`, which evaluates `declarations`), one activation
+    enters the cycle at most once per child.  Two entries for the same children double the work per level - 2^depth
+    constructions for a type or namespace nested `depth` deep, however fast the grammar itself is.  Properties are followed as
+    calls; a cached property is evaluated once and does not count."""
+    for label, src, want in (("positive", _Z9_POSITIVE, True), ("negative", _Z9_NEGATIVE, False)):
+        t = ast.parse(src)
+        for p_ in ast.walk(t):
+            for c_ in ast.iter_child_nodes(p_):
+                c_._parent = p_
+        if bool(_cycle_fanout({"Node": t.body[0]})) != want:
+            raise AnalysisError(f"{rep.prop}/{rid}: built-in {label} example is not decided as expected")
+    prog = ctx.prog
+    classes: Dict[str, ast.ClassDef] = {}
+    rels: Dict[str, str] = {}
+    for mi in prog.modules.values():
+        if mi.rel.startswith(package):
+            for q, ci in mi.classes.items():
+                classes[q] = ci.node
+                rels[q] = mi.rel
+    if len(classes) < 15:
+        raise AnalysisError(f"{rep.prop}/{rid}: only {len(classes)} parser node classes found")
+    found = _cycle_fanout(classes)
+    rep.units["parser_classes_scanned_for_recursion_cycles"] = len(classes)
+    for q, k, lines in found:
+        cq = q.rsplit(".", 1)[0]
+        rep.add(rid, f"recursion cycle:{q}:one entry per child", False,
+                f"`{q}` lies on a cycle of calls among the node classes and enters it at lines {lines} for {k}: every level of nesting doubles the "
+                f"work done while parsing (2^depth)", f"{rels.get(cq, package)}:{lines[0]}")
+    rep.add(rid, "recursion cycles among the parser's node classes enter once per child", not found,
+            f"{len(found)} function(s) enter their cycle twice for the same children", f"{package}:0", nontrivial=bool(found))
